@@ -1,21 +1,21 @@
 (** Correspondence and property evaluation for C03 (connection kinds route to the promised
     replicas), on the real `End` operator. *)
 From Noir Require Import Corr.LinkCorr.
+From Noir Require Model.Sched Corr.C19.
 Open Scope Z_scope.
 
-Definition case := lcase.
-Definition corr_ok := link_corr_ok.
+Definition corr_ok_link := link_corr_ok.
 
-Definition data_in (c : case) : list (elem Z * N) := filter (fun x => is_data (fst x)) (l_input c).
-Definition got (c : case) (b r : nat) : list (elem Z) := concat (impl_recv c b r).
+Definition data_in (c : lcase) : list (elem Z * N) := filter (fun x => is_data (fst x)) (l_input c).
+Definition got (c : lcase) (b r : nat) : list (elem Z) := concat (impl_recv c b r).
 Definition count_in (e : elem Z) (l : list (elem Z)) : nat := length (filter (zel_eqb e) l).
 
 (** data values are distinct within a case (the harness numbers them), so "how many
     replicas of block b received element e" is well defined *)
-Definition receivers_of (c : case) (b : nat) (e : elem Z) : list nat :=
+Definition receivers_of (c : lcase) (b : nat) (e : elem Z) : list nat :=
   filter (fun r => Nat.ltb 0 (count_in e (got c b r))) (seq 0 (nth b (l_blocks c) 0%nat)).
 
-Definition prop_ok (c : case) : bool :=
+Definition prop_ok_link (c : lcase) : bool :=
   forallb (fun b =>
     let n := nth b (l_blocks c) 0%nat in
     (* every data element: exactly one replica of the block (every replica for broadcast),
@@ -44,6 +44,27 @@ Definition prop_ok (c : case) : bool :=
     (* nothing that was not sent *)
     forallb (fun r => forallb (fun e => negb (is_data e) || existsb (fun x => zel_eqb e (fst x)) (l_input c)) (got c b r)) (seq 0 n))
     (seq 0 (length (l_blocks c))).
+
+(** Forward connections are wired by the scheduler, not chosen by `End`: the second kind
+    of case is an execution graph derived by the real scheduler (the cases of C19), checked
+    against the scheduler model that theorem C03_forward_wiring is about, and — on the
+    dumps themselves — for "every producer replica of a forward edge has exactly one
+    consumer, the same-index one when it exists". *)
+Inductive case :=
+| KLink (c : lcase)
+| KGraph (c : C19.case).
+
+Definition forward_only (c : C19.case) : C19.case :=
+  C19.Build_case (C19.c_dep c) (C19.c_blocks c)
+    (filter (fun e => Sched.e_forward e && negb (Sched.e_fragile e)) (C19.c_edges c)) (C19.c_dumps c).
+
+Definition corr_ok (c : case) : bool :=
+  match c with KLink x => corr_ok_link x | KGraph x => C19.corr_ok x end.
+Definition prop_ok (c : case) : bool :=
+  match c with
+  | KLink x => prop_ok_link x
+  | KGraph x => forallb (fun d => C19.links_ok (forward_only x) d) (C19.c_dumps x)
+  end.
 
 Definition known_class (c : case) : N := 0%N.
 Definition report (cs : list case) := classify corr_ok prop_ok known_class cs.
